@@ -37,6 +37,12 @@ where
     ///
     /// If the bounds aren't valid for the given string data then None is returned.
     pub fn new(string: Ptr<String>, bounds: Range<usize>) -> Option<Self> {
+        // The bounds must be within the string and on char boundaries,
+        // otherwise `as_str` would produce invalid UTF-8 (or read out of bounds).
+        if string.get(bounds.clone()).is_none() {
+            return None;
+        }
+
         try_from_range(&bounds).map(|bounds| Self {
             data: string,
             bounds,
